@@ -202,7 +202,18 @@ func (w *Wallet) handleChainNotifications() {
 					return
 				}
 			case *chain.RescanFinished:
-				err = catchUpHashes(w, chainClient, n.Height)
+				// Blocks connected while the rescan was running
+				// could not be processed above, so catch up to
+				// the backend's current tip if it is past the
+				// height the rescan was started for. Otherwise
+				// the next connected block would not find its
+				// predecessor and the wallet would stay behind.
+				catchUpHeight := n.Height
+				_, bestHeight, bestErr := chainClient.GetBestBlock()
+				if bestErr == nil && bestHeight > catchUpHeight {
+					catchUpHeight = bestHeight
+				}
+				err = catchUpHashes(w, chainClient, catchUpHeight)
 				notificationName = "rescan finished"
 				w.SetChainSynced(true)
 				select {
